@@ -537,7 +537,16 @@ pub fn c03_scenario(ch: &mut Chooser, thorough: bool) -> Exec {
             }
         })));
     }
-    let mut net = build(1, LAT, fail, repair, order_ba);
+    // how the failure rate gets configured: through the builder, or at run time for every link
+    // (`Sim::set_fail_rate`), or for the link A-B alone (`Sim::set_link_fail_rate`)
+    // (varied in the base configuration only: the dimension is independent of who issues the calls)
+    let rate_via = if random && !from_host && !order_ba && !wide { ch.choose("fail_rate_set_by", 3) } else { 0 };
+    let mut net = build(1, LAT, if rate_via == 0 { fail } else { 0.0 }, repair, order_ba);
+    match rate_via {
+        1 => net.sim.set_fail_rate(fail),
+        2 => net.sim.set_link_fail_rate(NAMES[0], NAMES[1], fail),
+        _ => {}
+    }
     // explicit partition flags per direction: [A->B, B->A, B->C]
     let mut part = [false, false, false];
     let mut calls = 0;
@@ -708,7 +717,7 @@ pub fn c03_scenario(ch: &mut Chooser, thorough: bool) -> Exec {
     obs.push(format!("recv={:?}", net.st.borrow().recv));
     if let Some(v) = violation.as_mut() {
         v.sig = format!("{}|random={}|from_host={}|wide={}", v.clause, random, from_host, wide);
-        v.scenario = format!("c03 tier={} steps={steps} calls<={max_calls} from_host={from_host} order_ba={order_ba} random={random} wide={wide}", if thorough { "thorough" } else { "quick" });
+        v.scenario = format!("c03 tier={} steps={steps} calls<={max_calls} from_host={from_host} order_ba={order_ba} random={random} (rate set by {}) wide={wide}", if thorough { "thorough" } else { "quick" }, ["builder", "Sim::set_fail_rate", "Sim::set_link_fail_rate(A,B)"][rate_via]);
         v.actions = obs.clone();
     }
     Exec { outcome: Digest::of64(&obs), violation, features: feats }
